@@ -96,7 +96,7 @@ def match_known(case, fail, known):
                 return k
             if k.get('id') == 'K24' and cl.startswith('decode-raises:ValueError') and 'Node not part of connection choice' in det:
                 return k
-            if k.get('id') == 'K25' and cl in ('two-rows-one-architecture', 'architectures-differ', 'n-valid-designs-differs') and '[connectors=conditional]' in det:
+            if k.get('id') == 'K25' and cl in ('two-rows-one-architecture', 'architectures-differ', 'n-valid-designs-differs', 'enumerated-row-does-not-decode-to-itself') and '[connectors=conditional]' in det:
                 return k
             if k.get('id') == 'K26' and cl.startswith('processor-raises:ValueError') and 'max() iterable argument is empty' in det:
                 return k
